@@ -645,7 +645,8 @@ class StrengthModel:
         strongContributions = np.array(strongContributions)
         strongContributions[(strongContributions < 0) | ~np.isfinite(strongContributions)] = 0
         tauowo = np.array(self.orowan(rss, Ls))
-        tauowo[~np.isfinite(tauowo)] = 0
+        #log(2r/ri) is negative for particles smaller than the dislocation core, treat as no contribution like the other mechanisms
+        tauowo[(tauowo < 0) | ~np.isfinite(tauowo)] = 0
         return weakContributions, strongContributions, tauowo, contributionsList
     
     def combineStrengthContributions(self, weakContributions, strongContributions, orowan, returnComparison = False):
@@ -669,7 +670,7 @@ class StrengthModel:
         tausumstrong = np.zeros(orowan.shape) if len(strongContributions) == 0 else np.array(np.power(np.sum(np.power(strongContributions, self.singlePhaseExp), axis=0), 1/self.singlePhaseExp))
         tausumweak[~np.isfinite(tausumweak)] = 0
         tausumstrong[~np.isfinite(tausumstrong)] = 0
-        orowan[~np.isfinite(orowan)] = 0
+        orowan[(orowan < 0) | ~np.isfinite(orowan)] = 0
         taumin = np.amin(np.array([tausumweak, tausumstrong, orowan]), axis=0)
         if returnComparison:
             return self.M * taumin, (tausumweak > tausumstrong) & (tausumweak > orowan), (self.M * tausumweak, self.M * tausumstrong, self.M * orowan)
